@@ -455,7 +455,7 @@ func flagWalk(p *Program, fn *ssa.Function, seeds map[ssa.Value]bool, depth int,
 						if cal != nil && recvNamed(cal, "environment", "Environment") && len(x.Call.Args) >= 2 {
 							if c, ok := x.Call.Args[1].(*ssa.Const); ok && c.Value != nil {
 								ctx.names[c.Value.ExactString()] = true
-								if cal.Name() == "Set" {
+								if cal.Name() == "Set" && !restoresRead(x) {
 									ctx.nSet++
 								}
 								continue
@@ -802,7 +802,7 @@ func ruleFlagOnly(p *Program, r *Reporter) {
 					if cal != nil && recvNamed(cal, "environment", "Environment") && len(x.Call.Args) >= 2 {
 						if c, ok := x.Call.Args[1].(*ssa.Const); ok && c.Value != nil {
 							names[c.Value.ExactString()] = true
-							if cal.Name() == "Set" {
+							if cal.Name() == "Set" && !restoresRead(x) {
 								nSet++
 							}
 							continue
@@ -1672,4 +1672,23 @@ func compareFoldByValue(p *Program, fn *ssa.Function, op, want string) (bool, st
 		return true, fmt.Sprintf("evaluated for %s: equal entries give %s, unequal entries %s — the VM's %s", op, wantEq, wantNe, want)
 	}
 	return false, ""
+}
+
+// restoresRead: the call stores under a name the value that a look-up of the
+// same name handed back earlier: it puts a variable back, it does not set it.
+func restoresRead(c *ssa.Call) bool {
+	if len(c.Call.Args) < 3 {
+		return false
+	}
+	ex, ok := c.Call.Args[2].(*ssa.Extract)
+	if !ok || ex.Index != 0 {
+		return false
+	}
+	get, ok := ex.Tuple.(*ssa.Call)
+	if !ok || get.Call.StaticCallee() == nil || !recvNamed(get.Call.StaticCallee(), "environment", "Environment") || len(get.Call.Args) < 2 {
+		return false
+	}
+	k1, ok1 := get.Call.Args[1].(*ssa.Const)
+	k2, ok2 := c.Call.Args[1].(*ssa.Const)
+	return ok1 && ok2 && k1.Value != nil && k2.Value != nil && k1.Value.ExactString() == k2.Value.ExactString()
 }
